@@ -33,7 +33,11 @@ m = {
     "engines": [{"name": "pyvc", "path": "pyvc/", "serves_properties": sorted(CLAIMS),
                  "kind_free_text": "own verification-condition generator: Python ast of the real /repo sources -> symbolic execution against sidecar contracts (contracts/, specs/) -> z3 5.1 (cvc5 for unknowns); ground obligations over program text / api.proto by exact evaluation (ground/); native replay + bounded stand-ins (contracts/native_*.py)"}],
     "checks": checks,
-    "notes": "Contract-based deductive verification of the real code; see DESIGN.md. Exit codes: 0 held, 1 violation, 2 undecided, 3 checker error.",
+    "notes": "Contract-based deductive verification of the real code; see DESIGN.md (section 9 = as built) and AS_BUILT.md (per-property tables generated from the evidence). "
+             "Exit codes: 0 held (possibly with DEGRADED / BOUNDED lines and a lowered evidence level), 1 violation, 2 undecided, 3 checker error. "
+             "quick = z3 (cvc5 for what z3 leaves open); thorough = both solvers on every obligation, larger bounds for the bounded stand-ins, and a self-check "
+             "(built-in mutants of the real source must be refuted). seeded/ = 180 confirmed property-breaking changes with the obligation that catches each "
+             "(seeded/RESULTS.json), refactors/ = 80 behaviour-preserving changes that must not raise an alarm (refactors/RESULTS.json); tools/run_seeds.py runs both.",
     "not_applicable": na,
 }
 json.dump(m, open(os.path.join(HERE, "MANIFEST.json"), "w"), indent=1)
